@@ -175,6 +175,19 @@ def Op.quiet : Op → Bool
   | .callFunction => true
   | _ => false
 
+/-- an operation that submits a formula whose draw generation is refused (unknown type, wrong shape): an expression
+evaluated / a function created (one `IdManager`), or a BIOGEME constructor refused in its first round -/
+def refusedIn (E : Env σ α) (w : World σ α) : Op → Bool
+  | .evalExpr d R => (prepareDraws E d R w).2.isSome
+  | .createFunction d R => (prepareDraws E d R w).2.isSome
+  | .newBiogeme seed d R => (prepareDraws E d R { w with rng := seedPolicy E.fresh seed w.rng }).2.isSome
+  | _ => false
+
+/-- a history made of quiet operations and refused generations only -/
+def calmRun (E : Env σ α) : World σ α → List Op → Bool
+  | _, [] => true
+  | w, op :: rest => (op.quiet || refusedIn E w op) && calmRun E (step E w op).1 rest
+
 /-- a history (errors are raised to the caller and the session goes on) -/
 def run (E : Env σ α) (w : World σ α) : List Op → World σ α
   | [] => w
@@ -208,8 +221,10 @@ structure Cell where
   r : Nat
 deriving Repr, DecidableEq
 
+/-- the user type `GBAD` stands for a registered generator returning one column too many (refused by the shape test) -/
 def logGen : Gen (List Ev) Cell := fun src s N R =>
-  ((List.range N).map fun n => (List.range R).map fun r => ⟨s ++ [.call src N R], n, r⟩, s ++ [.call src N R])
+  let cols := if src = .user "GBAD" then R + 1 else R
+  ((List.range N).map fun n => (List.range cols).map fun r => ⟨s ++ [.call src N R], n, r⟩, s ++ [.call src N R])
 
 def logEnv (native user : List String) (N : Nat) : Env (List Ev) Cell where
   dflt := ⟨[], 0, 0⟩
